@@ -131,7 +131,9 @@ namespace options
 
                 if (!env_value.empty())
                 {
-                    update_value(env_value);
+                    // take the value as it is, it must not be interpreted as a command line argument
+                    dirty_ = true;
+                    value_ = env_value;
 
                     return;
                 }
